@@ -68,7 +68,7 @@ def run(ctx):
                 "frozen windows, generated setter functions) run under build in {compiled, pure} x PYTHONHASHSEED; transcripts compared with "
                 "compiled/seed 0; non-trivial = a program with >= 2 definitions and >= 1 triggered update; distinct by op list")
     ctx.scale_if_changed()
-    proof_ok = vlib.standard_proof_part(ctx, "props/C20.v", extra_targets=["run/RunManager.vo", "proofs/TasksSrc.vo", "proofs/TasksSrcData.vo", "proofs/TasksSrcRefresh.vo"], translators=["tasks"])
+    proof_ok = vlib.standard_proof_part(ctx, "props/C20.v", extra_targets=["run/RunManager.vo", "proofs/TasksSrc.vo", "proofs/TasksSrcData.vo", "proofs/TasksSrcRefresh.vo", "proofs/TasksSrcSorting.vo"], translators=["tasks"])
     import C13
     # expression tasks only: two independent tasks writing one location (a function task and a definition
     # on the same target) race by construction and are outside the property
